@@ -77,10 +77,7 @@ def checkTypeWith (mode : BaseCmp) (x : Val) (expected : Ty) : Bool :=
     match x.ty with
     | .agg k' b' => if k' ≠ k then false else baseTypesMatch mode x b' b
     | .simple _ => false
-  | .simple t =>
-    match x.ty with
-    | .simple t' => decide (t' = t)
-    | .agg _ _ => false
+  | .simple t => conforms x.ty (.simple t)          -- isinstance(instance, expected_type)
 
 def checkType (x : Val) (expected : Ty) : Bool := checkTypeWith elementBaseCmp x expected
 
@@ -112,8 +109,8 @@ def distinctCount {α} [DecidableEq α] : List α → Nat
   | [] => 0
   | x :: xs => if x ∈ xs then distinctCount xs else distinctCount xs + 1
 
-/-- `s.add(x)` for a Python `set` kept as a duplicate-free list -/
-def pySetAdd (c : List Val) (x : Val) : List Val := if x ∈ c then c else c ++ [x]
+/-- `s.add(x)` for a Python `set` kept as a duplicate-free list; membership is python's (`Val.key`) -/
+def pySetAdd (c : List Val) (x : Val) : List Val := if x.key ∈ c.map Val.key then c else c ++ [x]
 
 /-! ### ARRAY -/
 
@@ -141,7 +138,8 @@ def Arr.set (a : Arr) (i : Int) (x : Val) : Arr × R :=
   else if typeMismatch x a.base then (a, .raised .type)            -- check_type(value, self.get_type())
   else
     let p := i - a.lo
-    if a.unique && (pySliceTo a.cells p ++ pySliceFrom a.cells (p + 1)).contains (some x) then
+    let ks := a.cells.map (Option.map Val.key)                      -- `value in lst`: python equality, `None` equals nothing
+    if a.unique && (pySliceTo ks p ++ pySliceFrom ks (p + 1)).contains (some x.key) then
       (a, .raised .assertion)
     else match pyIdx a.cells.length p with
       | none => (a, .raised .pyIndex)
@@ -161,7 +159,7 @@ def Arr.get (a : Arr) (i : Int) : R :=
 /-- `ARRAY.get_value_unique` -/
 def Arr.valueUnique (a : Arr) : Logical :=
   if a.cells.contains none then .u
-  else if arraySize a.lo a.hi - (distinctCount a.cells : Int) > 0 then .f else .t
+  else if arraySize a.lo a.hi - (distinctCount (a.cells.map (Option.map Val.key)) : Int) > 0 then .f else .t
 
 def Arr.step (a : Arr) : Op → Arr × R
   | .set i x => a.set i x
@@ -218,7 +216,7 @@ def Lst.set (l : Lst) (i : Int) (x : Val) : Lst × R :=
   if i < 1 ∨ i > size + 1 then (l, .raised .index)
   else if i = size + 1 ∧ l.full then (l, .raised .assertion)
   else if typeMismatch x l.base then (l, .raised .type)
-  else if l.unique && (pySliceTo l.cells (i - 1) ++ pySliceFrom l.cells i).contains x then
+  else if l.unique && (pySliceTo (l.cells.map Val.key) (i - 1) ++ pySliceFrom (l.cells.map Val.key) i).contains x.key then
     (l, .raised .assertion)
   else if i = size + 1 then ({ l with cells := l.cells ++ [x] }, .ok)
   else match pyIdx l.cells.length (i - 1) with
@@ -227,7 +225,7 @@ def Lst.set (l : Lst) (i : Int) (x : Val) : Lst × R :=
 
 /-- `get_value_unique` of LIST and BAG (no `None` can be stored) -/
 def listValueUnique (c : List Val) : Logical :=
-  if (c.length : Int) - (distinctCount c : Int) > 0 then .f else .t
+  if (c.length : Int) - (distinctCount (c.map Val.key) : Int) > 0 then .f else .t
 
 def hiBound : Option Int → R
   | none => .indet
@@ -306,7 +304,7 @@ def PSet.addMembershipFirst (s : PSet) (x : Val) : PSet × R :=
     if typeMismatch x s.base then (s, .raised .type) else ({ s with cells := pySetAdd s.cells x }, .ok)
   | some h =>
     if fullTest setFullGe s.cells.length (setFullAt s.lo h) then
-      (if ¬ (x ∈ s.cells) then (s, .raised .assertion) else (s, .ok))
+      (if ¬ (x.key ∈ s.cells.map Val.key) then (s, .raised .assertion) else (s, .ok))
     else if typeMismatch x s.base then (s, .raised .type)
     else ({ s with cells := pySetAdd s.cells x }, .ok)
 
@@ -318,7 +316,7 @@ def PSet.addTypeCheckFirst (s : PSet) (x : Val) : PSet × R :=
     | none => ({ s with cells := pySetAdd s.cells x }, .ok)
     | some h =>
       if fullTest setFullGe s.cells.length (setFullAt s.lo h) then
-        (if ¬ (x ∈ s.cells) then (s, .raised .assertion) else (s, .ok))
+        (if ¬ (x.key ∈ s.cells.map Val.key) then (s, .raised .assertion) else (s, .ok))
       else ({ s with cells := pySetAdd s.cells x }, .ok)
 
 /-- `SET.add`, in the statement order the source has (`setAddChecksTypeFirst`, regenerated) -/
